@@ -149,6 +149,7 @@ func checkC15(p *Prog, r *Report) {
 	r.rule("C15.G2", "postProcess re-arms its die arm after every processed item on every path and returns on die only when chPostProcessing is empty", 2)
 	r.rule("C15.G3", "the periodic update callback is re-submitted only on the not-closed arm", 1)
 	r.rule("C15.G4", "UDPSession.Close (no listener, owned conn) and Listener.Close (owned conn) close the transport", 2)
+	r.rule("C15.G6", "a session created by the listener is handed to Accept or closed on every path: nothing else holds a reference that could ever stop its goroutine and its scheduled callback", 1)
 	r.rule("C15.G5", "sends on chAccepts are controlled by the room test len < cap; sends on the scheduler's chTask are in a select with die", 2)
 
 	get := p.Method("bufferPool", "Get")
@@ -298,6 +299,7 @@ func checkC15(p *Prog, r *Report) {
 	checkPostProcessDrain(p, r)
 	checkUpdateResubmit(p, r)
 	checkCloseTransport(p, r)
+	checkCreatedSessionsOwned(p, r)
 	checkBoundedSends(p, r)
 }
 
@@ -1166,6 +1168,78 @@ func checkCloseTransport(p *Prog, r *Report) {
 	}
 }
 
+// checkCreatedSessionsOwned: C15.G6.
+func checkCreatedSessionsOwned(p *Prog, r *Report) {
+	lp := p.FuncByName("(*Listener).packetInput")
+	c := p.CFG(lp)
+	fAcc := p.Field("Listener", "chAccepts")
+	n := 0
+	for _, s := range p.CallsTo(p.Func("newUDPSession")) {
+		if s.Fn != lp {
+			continue
+		}
+		n++
+		// the variable the session is bound to
+		var sv types.Object
+		if as, ok := p.parents[s.Call].(*ast.AssignStmt); ok && len(as.Lhs) == 1 {
+			if id, ok := as.Lhs[0].(*ast.Ident); ok {
+				sv = p.Info.Defs[id]
+				if sv == nil {
+					sv = p.Info.Uses[id]
+				}
+			}
+		}
+		pt, _ := c.PointOf(s.Call)
+		isOwned := func(nd ast.Node, _ Point) bool {
+			f := false
+			inspectShallow(nd, func(x ast.Node) bool {
+				switch y := x.(type) {
+				case *ast.SendStmt:
+					if t := p.Term(y.Chan); t.Op == "fld" && t.Obj == fAcc {
+						if id, ok := ast.Unparen(y.Value).(*ast.Ident); ok && p.Info.Uses[id] == sv {
+							// a send that is a select arm takes effect in the arm's body (OnBlock below)
+							if cc, isCC := p.parents[y].(*ast.CommClause); !(isCC && cc.Comm == ast.Stmt(y)) {
+								f = true
+							}
+						}
+					}
+				case *ast.CallExpr:
+					if p.Callee(y) == p.Method("UDPSession", "Close") {
+						if sel, ok := ast.Unparen(y.Fun).(*ast.SelectorExpr); ok {
+							if id, ok := ast.Unparen(sel.X).(*ast.Ident); ok && p.Info.Uses[id] == sv {
+								f = true
+							}
+						}
+					}
+				}
+				return true
+			})
+			return f
+		}
+		res := c.FindPath(PathQuery{From: Point{pt.B, pt.I + 1}, IsBarrier: isOwned, ExitIsTarget: true,
+			OnBlock: func(b *cfg.Block) (bool, bool) {
+				if b.Kind == cfg.KindSelectCaseBody {
+					if cc, ok := b.Stmt.(*ast.CommClause); ok {
+						if ss, ok := cc.Comm.(*ast.SendStmt); ok {
+							if t := p.Term(ss.Chan); t.Op == "fld" && t.Obj == fAcc {
+								return false, true
+							}
+						}
+					}
+				}
+				return false, false
+			}})
+		if res.Found {
+			r.bad("C15.G6", lp.Name, p.Pos(s.Call), "ownership of a created session", "a path creates a session (its postProcess goroutine and its scheduled update callback are already running) and returns without handing it to Accept or closing it: no Close call can ever reach it", c.DescribePath(res.Path))
+		} else {
+			r.ok("C15.G6", lp.Name, p.Pos(s.Call), "ownership of a created session", "sent to chAccepts or closed on every path")
+		}
+	}
+	if n == 0 {
+		r.bad("C15.G6", lp.Name, p.Pos(lp.Node), "ownership of a created session", "the listener never creates a session", "")
+	}
+}
+
 func checkBoundedSends(p *Prog, r *Report) {
 	for _, fi := range p.funcs {
 		c := p.CFG(fi)
@@ -1180,13 +1254,27 @@ func checkBoundedSends(p *Prog, r *Report) {
 				if ok {
 					for _, ct := range c.DominatingConds(pt) {
 						for _, a := range Conjuncts(ct) {
-							if a.Op == "<" && a.Args[0].Op == "len" && a.Args[1].Op == "cap" && a.Args[0].Args[0].Key() == co.Chan.Key() && a.Args[1].Args[0].Key() == co.Chan.Key() {
+							if f, isF := co.Chan.Obj.(*types.Var); isF && p.roomTest(fi, a, f, p.ConstInt("acceptBacklog")) {
 								okRoom = true
 							}
 						}
 					}
 				}
-				r.check(okRoom, "C15.G5", rootFuncInfo(fi).Name, p.Pos(co.Node), "send on chAccepts", "controlled by len(chAccepts) < cap(chAccepts)", "the monitor goroutine can block forever on a full accept backlog")
+				// a select with a default arm does not block either
+				if !okRoom {
+					if cc, isCC := p.parents[co.Node].(*ast.CommClause); isCC && cc.Comm == co.Node {
+						if blk, isB := p.parents[cc].(*ast.BlockStmt); isB {
+							if sel, isS := p.parents[blk].(*ast.SelectStmt); isS {
+								for _, cl := range sel.Body.List {
+									if cl.(*ast.CommClause).Comm == nil {
+										okRoom = true
+									}
+								}
+							}
+						}
+					}
+				}
+				r.check(okRoom, "C15.G5", rootFuncInfo(fi).Name, p.Pos(co.Node), "send on chAccepts", "controlled by len(chAccepts) < cap(chAccepts) (or non-blocking)", "the monitor goroutine can block forever on a full accept backlog")
 			case "chTask":
 				okSel := false
 				if cc, ok := p.parents[co.Node].(*ast.CommClause); ok {
